@@ -95,6 +95,14 @@ def streamProxy {Msg Rep : Type} (ex : Bool × Bool × Bool × Option Nat) (clos
       if isStreamError ex.1 ex.2.1 ex.2.2.1 ex.2.2.2 outErr then ⟨sent, true, reps, some st⟩
       else ⟨sent, true, reps, some Status.ok⟩
 
+/-- the backend has ALREADY ended the call (status `st`) when the forwarder sends the first message:
+grpc-go's `ClientStream.SendMsg` then returns io.EOF and the status is to be discovered with
+`RecvMsg`. `eofIsFinal` = the forwarder returns that io.EOF as the call's error (a client then
+sees Unknown "EOF": io.EOF is not a status) instead of going on to `RecvMsg`. -/
+def earlyEnd (ex : Bool × Bool × Bool × Option Nat) (eofIsFinal : Bool) (st : Status) : Status :=
+  if eofIsFinal then ⟨2, 0⟩
+  else if isStreamError ex.1 ex.2.1 ex.2.2.1 ex.2.2.2 (asErr st) then st else Status.ok
+
 /-- the unary forwarder: `cc.Invoke`, its error returned as is. -/
 def unaryProxy {Msg Rep : Type} (B : Backend Msg Rep) (m : Msg) : Seen Msg Rep :=
   let r := B [m] true
